@@ -14,7 +14,7 @@ from sys import maxsize
 
 from mc.engine import hbfs, par
 from mc.engine.report import Violation
-from mc.engine.seams import Canon, reset_library
+from mc.engine.seams import Canon, reset_library, new_model
 
 import ECAgent.Core as Core
 from ECAgent.Collectors import AgentCollector, FileCollector
@@ -85,7 +85,7 @@ class AgentLeg:
 
     def fresh(self):
         w = World()
-        w.model = m = Core.Model(seed=1)
+        w.model = m = new_model(seed=1)
         w.agents = {}
         for k in self.keys:
             a = Core.Agent(k, m)
@@ -135,7 +135,7 @@ class AgentLeg:
         w.t = 0
         w.ref = []
         # a second model with an agent collector of the same id, stepped in lockstep: its records are its own
-        w.m2 = Core.Model(seed=2)
+        w.m2 = new_model(seed=2)
         b = Core.Agent('z', w.m2)
         b.add_component(V(b, w.m2, 99))
         w.m2.environment.add_agent(b)
@@ -268,7 +268,7 @@ def file_case(case):
     tmp = tempfile.mkdtemp(prefix='c17-')
     try:
         path = os.path.join(tmp, 'out.txt')
-        model = Core.Model(seed=1)
+        model = new_model(seed=1)
         script = list(counts)
 
         class Col(FileCollector):
